@@ -6,6 +6,7 @@ package main
 import (
 	"fmt"
 	"strings"
+	"time"
 
 	"verif/common"
 	"verif/sched"
@@ -125,6 +126,13 @@ func scenario(name string, capa, fill int, rot uint32, want string, progs ...pro
 							var v int
 							fmt.Sscanf(o, "pushwait0:%d", &v)
 							t.Op("push", v, func() any { return rg.PushWait(v, 0) })
+						case strings.HasPrefix(o, "pushwaitT:"):
+							// positive duration: 10 ms ticker, gives up at the first tick >= 15 ms (abstract time)
+							var v int
+							fmt.Sscanf(o, "pushwaitT:%d", &v)
+							t.Op("push", v, func() any { return rg.PushWait(v, 15*time.Millisecond) })
+						case o == "popwaitT":
+							t.Op("pop", 15, func() any { v, ok := rg.PopWait(15 * time.Millisecond); return popRes{v, ok} })
 						case o == "pop":
 							t.Op("pop", nil, func() any { v, ok := rg.Pop(); return popRes{v, ok} })
 						case o == "popwait":
@@ -203,7 +211,16 @@ func scenario(name string, capa, fill int, rot uint32, want string, progs ...pro
 func main() {
 	var specs []sched.Spec
 	for _, capa := range []int{2, 4} {
-		rots := []uint32{0, 1, uint32(capa - 1), 1<<32 - 1, uint32(1<<32 - capa)}
+		var rots []uint32
+		for _, rt := range []uint32{0, 1, uint32(capa - 1), 1<<32 - 1, uint32(1<<32 - capa)} {
+			dup := false
+			for _, o := range rots {
+				dup = dup || o == rt
+			}
+			if !dup {
+				rots = append(rots, rt)
+			}
+		}
 		for _, rot := range rots {
 			for fill := 0; fill <= capa; fill++ {
 				add := func(s sched.Spec) { specs = append(specs, s) }
@@ -231,11 +248,22 @@ func main() {
 				scenario("pushwait0|popwait0", capa, capa, rot, "", prog{"pushwait0:1"}, prog{"popwait0"}),
 				scenario("pushwait0|popwait0", capa, 0, rot, "", prog{"pushwait0:1"}, prog{"popwait0"}),
 			)
+			if rot == 0 || rot == 1<<32-1 {
+				// positive wait durations: the ticker is a daemon virtual thread, time is abstract
+				specs = append(specs,
+					scenario("timed/pushwaitT|pop", capa, capa, rot, "", prog{"pushwaitT:1"}, prog{"pop"}),
+					scenario("timed/popwaitT|push", capa, 0, rot, "", prog{"popwaitT"}, prog{"push:1"}),
+					scenario("timed/pushwaitT-alone-full", capa, capa, rot, "", prog{"pushwaitT:1"}),
+					scenario("timed/popwaitT-alone-empty", capa, 0, rot, "", prog{"popwaitT"}),
+					scenario("timed/pushwaitT|popwaitT", capa, capa, rot, "", prog{"pushwaitT:1"}, prog{"popwaitT"}),
+					scenario("timed/pushwaitT|popwaitT", capa, 0, rot, "", prog{"pushwaitT:1"}, prog{"popwaitT"}),
+				)
+			}
 		}
 	}
 	sched.Main("C01", specs,
 		[]string{
-			"small scope: <= 3 goroutines x <= 2 operations, capacities 2 and 4, every fill level, rotations 0, 1, cap-1 and two that put the 32-bit counter wrap inside the concurrent window; positive PushWait/PopWait durations (real ticker) are not entered",
+			"small scope: <= 3 goroutines x <= 2 operations, capacities 2 and 4, every fill level, rotations 0, 1, cap-1 and two that put the 32-bit counter wrap inside the concurrent window; positive PushWait/PopWait durations run on abstract time: the 10 ms ticker is a daemon virtual thread that ticks whenever the scheduler lets it (no wall clock)",
 			"interleaving at atomic operations is exact for Go's sequentially consistent atomics provided plain accesses are race-free, which the vector-clock detector checks on every explored schedule (probes on every plain field / element access of ringz/sync.go)",
 			"large rotations are installed by writing the private counters (validated against honest stepping by check C10)",
 			"state matching on 128-bit happens-before signatures (collisions assumed away)",
